@@ -9,13 +9,19 @@ def _limits():
 
 def sh(cmd, timeout, cwd=None):
     t0 = time.time()
+    # own process group, so that a timeout also kills the external SMT solver cbmc spawned
+    p = subprocess.Popen(cmd, stdout=subprocess.PIPE, stderr=subprocess.PIPE, text=True, cwd=cwd,
+                         preexec_fn=_limits, start_new_session=True)
     try:
-        p = subprocess.run(cmd, capture_output=True, text=True, timeout=timeout, cwd=cwd, preexec_fn=_limits)
-        return p.returncode, p.stdout, p.stderr, time.time() - t0
-    except subprocess.TimeoutExpired as e:
-        out = e.stdout.decode() if isinstance(e.stdout, bytes) else (e.stdout or '')
-        err = e.stderr.decode() if isinstance(e.stderr, bytes) else (e.stderr or '')
-        return 'timeout', out, err, time.time() - t0
+        out, err = p.communicate(timeout=timeout)
+        return p.returncode, out, err, time.time() - t0
+    except subprocess.TimeoutExpired:
+        import signal
+        try: os.killpg(p.pid, signal.SIGKILL)
+        except ProcessLookupError: pass
+        try: out, err = p.communicate(timeout=10)
+        except Exception: out, err = '', ''
+        return 'timeout', out or '', err or '', time.time() - t0
 
 class GroupResult:
     def __init__(self, group):
@@ -55,6 +61,25 @@ def cbmc_flags(group, extra_defs=None):
     elif be == 'kissat': f += ['--external-sat-solver', 'kissat']
     elif be != 'sat': raise ValueError('backend ' + be)
     return f
+
+def translate_unwindset(gb, spec):
+    """'Fn#2:21,...' (loop ordinal in source order, as in the spec files) -> CBMC loop ids"""
+    rc, out, err, dt = sh(['cbmc', gb, '--show-loops', '--json-ui'], 120)
+    data = json.loads(out)
+    loops = {}
+    for item in data:
+        if isinstance(item, dict) and 'loops' in item:
+            for l in item['loops']:
+                fn = l['sourceLocation'].get('function'); loops.setdefault(fn, []).append((int(l['sourceLocation'].get('line', 0)), l['name']))
+    outp = []
+    for part in spec.split(','):
+        name, bound = part.rsplit(':', 1)
+        if '#' in name:
+            fn, n = name.split('#'); ls = sorted(loops.get(fn, []))
+            if int(n) < 1 or int(n) > len(ls): raise ValueError('no loop %s in %s (has %d)' % (n, fn, len(ls)))
+            name = ls[int(n) - 1][1]
+        outp.append('%s:%s' % (name, bound))
+    return ','.join(outp)
 
 def parse_json_ui(text):
     """cbmc --json-ui output -> (list of result dicts, verdict, messages)"""
@@ -98,7 +123,14 @@ def run_group(spec, group, ctext_spliced, workdir, timeout, trace=False, tag='')
         if rc != 0:
             r.reason = 'goto-instrument failed: ' + (err + out)[-2500:]; r.seconds = time.time() - t0; r.log = err + out; return r
         gb = base + '.i.gb'
-    cmd = ['cbmc', gb] + cbmc_flags(group) + ['--json-ui']
+    flags = cbmc_flags(group)
+    if group.get('unwindset') and '#' in group.get('unwindset'):
+        try:
+            us = translate_unwindset(gb, group.get('unwindset'))
+        except Exception as e:
+            r.reason = 'cannot map loop ordinals: %s' % e; r.seconds = time.time() - t0; return r
+        flags[flags.index('--unwindset') + 1] = us
+    cmd = ['cbmc', gb] + flags + ['--json-ui']
     if gb.endswith('.gb') and not gb.endswith('.i.gb'): cmd += ['--drop-unused-functions']
     if trace: cmd += ['--trace']
     r.cmds.append(' '.join(cmd))
@@ -145,6 +177,8 @@ def harness_inputs_from_trace(trace, prefix='in_'):
     for st in trace:
         if st.get('stepType') != 'assignment': continue
         lhs = st.get('lhs', '')
+        if lhs == 'in_READY':        # harness marker: inputs are complete, the call under test follows
+            break
         base = re.split(r'[\.\[]', lhs, 1)[0]
         if not base.startswith(prefix): continue
         v = st.get('value', {})
